@@ -23,7 +23,8 @@ def tree_hash():
         if os.path.exists(f):
             h.update(f.encode()); h.update(open(f, 'rb').read())
     for f in sorted(glob.glob(os.path.join(VERIF, 'harness', '*.go')) + glob.glob(os.path.join(VERIF, 'extract', '*.go'))
-                    + glob.glob(os.path.join(LEAN, 'Nject', '*.lean')) + glob.glob(os.path.join(LEAN, 'NjectGen', '*.lean'))):
+                    + glob.glob(os.path.join(LEAN, 'Nject', '*.lean')) + glob.glob(os.path.join(LEAN, 'NjectGen', '*.lean'))
+                    + glob.glob(os.path.join(VERIF, 'corpus', '*', '*.case'))):
         h.update(f.encode()); h.update(open(f, 'rb').read())
     return h.hexdigest()[:16]
 
